@@ -367,20 +367,22 @@ fn stub_legals(_b: &chess_movegen::Board) -> MoveGen {
     unsafe { LIST.as_ref().unwrap().to_real() }
 }
 #[kani::proof]
-#[kani::unwind(30)]
+#[kani::unwind(9)]
 #[kani::stub(chess_movegen::Board::legals, stub_legals)]
 pub fn c10_is_legal_is_membership_in_the_generated_list() {
-    let mut s = St::any(3);
+    let mut s = St::any(2);
     s.index = 0;
     s.mask = !0;
     s.cursor = 0;
     kani::assume(s.inv(false));
-    // every entry has at most two destinations (bounds the iteration inside `any`)
+    // at most 7 moves in the list (bounds the iteration inside `any`): <= 2 destinations per
+    // entry, a promotion entry one (= four moves)
     let mut i = 0;
-    while i < 3 {
-        kani::assume(s.dst[i].count_ones() <= 2);
+    while i < 2 {
+        kani::assume(s.dst[i].count_ones() <= if s.promo[i] { 1 } else { 2 });
         i += 1;
     }
+    kani::assume(!(s.n == 2 && s.promo[0] && s.promo[1]));
     unsafe { LIST = Some(s) };
     let b = chess_movegen::Board::standard();
     let p = any_probe();
